@@ -196,6 +196,9 @@ func (f *F) Eval(atom func(*Atom) bool) bool {
 }
 
 func (f *F) size() int {
+	if f.Op == "all" {
+		return 0
+	}
 	n := 1
 	for _, k := range f.Kids {
 		n += k.size()
